@@ -22,11 +22,41 @@ Proof. repeat split; vm_compute; reflexivity. Qed.
 Lemma all_guarded : forall b, op_guarded b = true.
 Proof. destruct b; vm_compute; reflexivity. Qed.
 
+(* ---- the final statements of runFunc (generated table) ---- *)
+
+Arguments leave : simpl never.
+
+(* with a context and env.done set, the error of the context is returned,
+   also while a panic is pending *)
+Lemma tail_ctx_first : forall pending, runfunc_tail true true pending = 1%N.
+Proof. destruct pending; vm_compute; reflexivity. Qed.
+
+(* otherwise the pending panic, or nil *)
+Lemma tail_own : forall has_ctx pending,
+  runfunc_tail has_ctx false pending = (if pending then 2%N else 0%N).
+Proof. destruct has_ctx, pending; vm_compute; reflexivity. Qed.
+
+Lemma tail_no_ctx : forall done pending,
+  runfunc_tail false done pending = (if pending then 2%N else 0%N).
+Proof. destruct done, pending; vm_compute; reflexivity. Qed.
+
+Lemma leave_ctx pending : leave true true pending = CRet RCtxErr.
+Proof. unfold leave. rewrite tail_ctx_first. reflexivity. Qed.
+
+Lemma leave_own has_ctx pending :
+  leave has_ctx false pending = CRet (if pending then RPanicErr else RNil).
+Proof. unfold leave. rewrite tail_own. destruct pending; reflexivity. Qed.
+
+Lemma leave_no_ctx done pending :
+  leave false done pending = CRet (if pending then RPanicErr else RNil).
+Proof. unfold leave. rewrite tail_no_ctx. destruct pending; reflexivity. Qed.
+
 (* ---- cancel_bounded ---- *)
 
-(* at the head of the loop with env.done set: the context error, in one iteration *)
+(* at the head of the loop with env.done set: the context error, in one
+   iteration, whether or not a panic is pending *)
 Lemma cancel_bounded_head orc s : cdone s = true -> crun true orc 1 s = Some RCtxErr.
-Proof. intros H. simpl. unfold cstep. rewrite H. reflexivity. Qed.
+Proof. intros H. cbn [crun]. unfold cstep. rewrite H. cbn [andb]. rewrite leave_ctx. reflexivity. Qed.
 
 Definition cancelled_at (orc : oracle) (t : nat) : bool :=
   match o_cancel_at orc with Some c => Nat.leb c t | None => false end.
@@ -43,13 +73,28 @@ Lemma cancel_bounded_mid orc s :
   crun_mid true orc 2 s = Some RCtxErr \/
   exists o, o_prog orc (cpc s) = KAbort o /\ crun_mid true orc 2 s = Some (ROwn o).
 Proof.
-  intros Hg Hd Hc. unfold crun_mid, cbody. rewrite Hd, Hc. simpl.
-  destruct (o_prog orc (cpc s)) as [|b|o|o] eqn:Hp.
-  - left. reflexivity.
-  - rewrite Hg. destruct (o_ready orc (clock s)); [|left; reflexivity].
-    destruct (o_pick_done orc (clock s)); left; reflexivity.
-  - left. reflexivity.
+  intros Hg Hd Hc. unfold crun_mid, cbody. rewrite Hd, Hc. cbn -[leave].
+  destruct (o_prog orc (cpc s)) as [|b|fr| | |o] eqn:Hp.
+  - left. unfold cstep. cbn -[leave]. rewrite leave_ctx. reflexivity.
+  - rewrite Hg. destruct (o_ready orc (clock s)); [|left; rewrite leave_ctx; reflexivity].
+    destruct (o_pick_done orc (clock s)); left; [rewrite leave_ctx; reflexivity|].
+    unfold cstep. cbn -[leave]. rewrite leave_ctx. reflexivity.
+  - destruct fr; left; [|rewrite leave_ctx; reflexivity].
+    unfold cstep. cbn -[leave]. rewrite leave_ctx. reflexivity.
+  - left. unfold cstep. cbn -[leave]. rewrite leave_ctx. reflexivity.
+  - left. rewrite leave_ctx. reflexivity.
   - right. exists o. split; reflexivity.
+Qed.
+
+(* a blocked instruction whose context is cancelled returns the context error
+   at once (the done case is the only ready one), also while a panic is pending *)
+Lemma blocked_cancel_returns_ctx orc s b :
+  (forall b, op_guarded b = true) ->
+  o_prog orc (cpc s) = KBlock b -> o_ready orc (clock s) = false -> cancelled orc s = true ->
+  cstep true orc s = CRet RCtxErr.
+Proof.
+  intros Hg Hp Hr Hc. unfold cstep. destruct (cdone s); cbn -[leave]; [apply leave_ctx|].
+  unfold cbody. rewrite Hp, Hg, Hr, Hc. cbn -[leave]. apply leave_ctx.
 Qed.
 
 (* one iteration that does not return advances the clock, keeps the context
@@ -60,17 +105,21 @@ Lemma cstep_next orc s s' :
   clock s' = S (clock s) /\ cancelled orc s' = true /\
   (o_watcher orc (clock s) = true -> cdone s' = true).
 Proof.
-  intros Hg Hc H. unfold cstep in H. destruct (cdone s) eqn:Hd; simpl in H; [discriminate|].
-  unfold cbody in H. rewrite Hd, Hc in H. simpl in H.
-  assert (Hmono : forall pc d, cancelled orc (tick s pc d) = true).
-  { intros pc d. unfold cancelled, tick in *. simpl. destruct (o_cancel_at orc); [|discriminate].
+  intros Hg Hc H. unfold cstep in H. destruct (cdone s) eqn:Hd; cbn -[leave] in H; [rewrite leave_ctx in H; discriminate|].
+  unfold cbody in H. rewrite Hd, Hc in H. cbn -[leave] in H.
+  assert (Hmono : forall pc d p, cancelled orc (tick_pending s pc d p) = true).
+  { intros pc d p. unfold cancelled, tick_pending in *. cbn -[leave]. destruct (o_cancel_at orc); [|discriminate].
     apply Nat.leb_le in Hc. apply Nat.leb_le. lia. }
-  destruct (o_prog orc (cpc s)) as [|b|o|o].
-  - inversion H; subst. split; [reflexivity|]. split; [apply Hmono|]. simpl. intros ->. reflexivity.
-  - rewrite Hg in H. destruct (o_ready orc (clock s)); [|discriminate].
-    destruct (o_pick_done orc (clock s)); [discriminate|].
-    inversion H; subst. split; [reflexivity|]. split; [apply Hmono|]. simpl. intros ->. reflexivity.
-  - destruct (o_watcher orc (clock s)); discriminate.
+  assert (Hmono' : forall pc d, cancelled orc (tick s pc d) = true) by (intros; apply Hmono).
+  destruct (o_prog orc (cpc s)) as [|b|fr| | |o].
+  - inversion H; subst. split; [reflexivity|]. split; [apply Hmono'|]. cbn -[leave]. intros ->. reflexivity.
+  - rewrite Hg in H. destruct (o_ready orc (clock s)); [|rewrite leave_ctx in H; discriminate].
+    destruct (o_pick_done orc (clock s)); [rewrite leave_ctx in H; discriminate|].
+    inversion H; subst. split; [reflexivity|]. split; [apply Hmono'|]. cbn -[leave]. intros ->. reflexivity.
+  - destruct fr; [|unfold leave in H; discriminate].
+    inversion H; subst. split; [reflexivity|]. split; [apply Hmono|]. cbn -[leave]. intros ->. reflexivity.
+  - inversion H; subst. split; [reflexivity|]. split; [apply Hmono|]. cbn -[leave]. intros ->. reflexivity.
+  - unfold leave in H. discriminate.
   - discriminate.
 Qed.
 
@@ -88,29 +137,67 @@ Proof.
   destruct (cstep_next orc s s' Hg Hc Hs) as [Hcl [Hc' Hdone]].
   destruct k as [|k].
   - rewrite Nat.add_0_r in Hw. specialize (Hdone Hw).
-    exists RCtxErr. cbn [crun]. unfold cstep. rewrite Hdone. reflexivity.
+    exists RCtxErr. assert (Hh := cancel_bounded_head orc s' Hdone). cbn [crun] in Hh.
+    destruct (cstep true orc s') as [s2|r2]; [discriminate|]. exact Hh.
   - apply IH; [exact Hc'|]. exists k. split; [lia|]. rewrite Hcl. rewrite <- Hw. f_equal. lia.
 Qed.
+
+(* ---- what is returned ---- *)
+
+(* the outcome of the code itself: nil, the pending PanicError, or the value of a Stop/Fatal *)
+Definition own (r : result) : Prop := r <> RCtxErr.
+
+(* once env.done is set at the head of the loop, whatever the loop returns
+   later is the context error: with cancel_bounded_head, in one iteration *)
+Lemma flag_set_returns_ctx orc : forall n s r,
+  cdone s = true -> crun true orc n s = Some r -> r = RCtxErr.
+Proof.
+  intros n s r Hd Hr. destruct n; [discriminate|].
+  cbn -[leave] in Hr. unfold cstep in Hr. rewrite Hd in Hr. cbn -[leave] in Hr. rewrite leave_ctx in Hr.
+  inversion Hr. reflexivity.
+Qed.
+
+(* a PanicError is returned only if the loop was left before env.done was seen
+   set: while a panic is pending a cancellation that has been noticed wins *)
+Lemma pending_panic_not_returned_after_flag orc s :
+  cdone s = true -> crun true orc 1 s <> Some RPanicErr.
+Proof. intros Hd. rewrite cancel_bounded_head by exact Hd. discriminate. Qed.
 
 (* ---- finish_first_wins ---- *)
 
 Lemma finish_first_wins hc orc : forall n s r,
   cdone s = false ->
   (forall t, t < clock s + n -> cancelled_at orc t = false) ->
-  crun hc orc n s = Some r -> exists o, r = ROwn o.
+  crun hc orc n s = Some r -> own r.
 Proof.
-  induction n; intros s r Hd Hnc Hr; simpl in Hr; [discriminate|].
+  induction n; intros s r Hd Hnc Hr; cbn -[leave] in Hr; [discriminate|].
   assert (Hc : cancelled orc s = false) by (rewrite cancelled_unfold; apply Hnc; lia).
   unfold cstep in Hr. rewrite Hd in Hr. rewrite andb_false_r in Hr.
-  unfold cbody in Hr. rewrite Hd, Hc in Hr. rewrite andb_false_r in Hr. simpl in Hr.
-  assert (Hnext : forall pc, crun hc orc n (tick s pc false) = Some r -> exists o, r = ROwn o).
-  { intros pc H. apply (IHn (tick s pc false)); [reflexivity| |exact H].
-    intros t Ht. apply Hnc. simpl in Ht. lia. }
-  destruct (o_prog orc (cpc s)) as [|b|o|o].
+  unfold cbody in Hr. rewrite Hd, Hc in Hr. rewrite andb_false_r in Hr. cbn -[leave] in Hr.
+  assert (Hnext : forall pc p, crun hc orc n (tick_pending s pc false p) = Some r -> own r).
+  { intros pc p H. apply (IHn (tick_pending s pc false p)); [reflexivity| |exact H].
+    intros t Ht. apply Hnc. cbn -[leave] in Ht. lia. }
+  assert (Hnext' : forall pc, crun hc orc n (tick s pc false) = Some r -> own r) by (intros pc; apply Hnext).
+  assert (Hleave : forall p, leave hc false p = CRet r -> own r).
+  { intros p H. rewrite leave_own in H. inversion H. destruct p; discriminate. }
+  destruct (o_prog orc (cpc s)) as [|b|fr| | |o].
+  - eapply Hnext'; eassumption.
+  - destruct (hc && op_guarded b); destruct (o_ready orc (clock s)); eapply Hnext'; eassumption.
+  - destruct fr; [eapply Hnext; eassumption|].
+    destruct (leave hc false true) as [|r'] eqn:Hl; [discriminate|]. inversion Hr; subst. eapply Hleave; eassumption.
   - eapply Hnext; eassumption.
-  - destruct (hc && op_guarded b); destruct (o_ready orc (clock s)); eapply Hnext; eassumption.
-  - rewrite andb_false_r in Hr. inversion Hr. eauto.
-  - inversion Hr. eauto.
+  - destruct (leave hc false (cpending s)) as [|r'] eqn:Hl; [discriminate|]. inversion Hr; subst. eapply Hleave; eassumption.
+  - inversion Hr. discriminate.
+Qed.
+
+(* more precisely: without a cancellation the end of the code returns nil when
+   no panic is pending and the PanicError when one is *)
+Lemma finish_returns_pending hc orc s :
+  cdone s = false -> cancelled orc s = false -> o_prog orc (cpc s) = KFinish ->
+  cstep hc orc s = CRet (if cpending s then RPanicErr else RNil).
+Proof.
+  intros Hd Hc Hp. unfold cstep. rewrite Hd, andb_false_r. unfold cbody. rewrite Hp, Hd, Hc.
+  rewrite andb_false_r. cbn -[leave]. apply leave_own.
 Qed.
 
 (* what happens if a blocking site is not guarded: the loop can stay blocked
@@ -121,7 +208,7 @@ Lemma unguarded_blocks_forever orc b :
   forall n s, cdone s = false -> crun true orc n s = None.
 Proof.
   intros Hg Hp Hr Hw. induction n; intros s Hd; [reflexivity|].
-  simpl. unfold cstep. rewrite Hd. simpl. unfold cbody. rewrite Hp, Hg, Hr, Hd, Hw. simpl.
+  cbn -[leave]. unfold cstep. rewrite Hd. cbn -[leave]. unfold cbody. rewrite Hp, Hg, Hr, Hd, Hw. cbn -[leave].
   rewrite andb_false_r. apply IHn. reflexivity.
 Qed.
 
@@ -130,3 +217,11 @@ Lemma cancel_bounded_watcher_all :
     (exists k, k < d /\ o_watcher orc (clock s + k) = true) ->
     exists r, crun true orc (S (S d)) s = Some r.
 Proof. intros orc. exact (cancel_bounded_watcher orc all_guarded). Qed.
+
+(* the phase of the seeded change C11-c: a panic that is not recovered, then a
+   deferred function that blocks; the cancellation makes Run return the error
+   of the context and not the PanicError *)
+Lemma cancel_in_deferred_after_panic :
+  scenario5 0 false false 2 1 = 2%N /\ scenario5 2 false false 2 1 = 2%N /\
+  scenario5 0 true false 2 1 = 2%N /\ scenario5 0 false true 1 1 = 3%N /\ scenario5 0 false true 0 1 = 3%N.
+Proof. vm_compute. repeat split. Qed.
